@@ -824,3 +824,135 @@ def path_desc(fn, path):
         out.append({"block": fn.bnames.get(b, str(b)), "line": I.line, "op": I.op,
                     "callee": I.d.get("callee")})
     return out
+
+
+# --------------------------------------------------------------------------
+# canonical expression strings for SSA operands (used to name branch atoms)
+
+def expr(fn, o, depth=6, phis=None):
+    """structural description of an operand: params by name, constants,
+    loads as load(ptr), geps as ptr+off, calls as callee(args)"""
+    m = fn.m
+    if o[0] == "c":
+        return str(cval(o, signed=True))
+    if o[0] == "n":
+        return "NULL"
+    if o[0] == "g":
+        s = m.operand_cstring(o)
+        return "@" + o[1] if s is None else repr(s.decode("latin1"))
+    if o[0] == "f":
+        return "&" + o[1]
+    if o[0] == "e":
+        s = m.operand_cstring(o)
+        if s is not None:
+            return repr(s.decode("latin1"))
+        return "%s(%s)" % (o[1], ",".join(expr(fn, x, depth - 1, phis) for x in o[2]))
+    if o[0] != "v":
+        return o[0]
+    vid = o[1]
+    if vid < fn.nparams:
+        return fn.params[vid]["name"] or "arg%d" % vid
+    if depth <= 0:
+        return "%%%d" % vid
+    I = fn.insts[vid]
+    if I.op == "phi":
+        if phis and vid in phis:
+            return expr(fn, phis[vid], depth - 1, phis)
+        return "phi%d" % vid
+    if I.op in ("bitcast", "zext", "sext", "trunc", "ptrtoint", "inttoptr", "freeze"):
+        inner = expr(fn, I.ops[0], depth, phis)
+        if I.op in ("bitcast", "ptrtoint", "inttoptr", "freeze"):
+            return inner
+        return "%s(%s)" % (I.op, inner)
+    if I.op == "load":
+        return "load(%s)" % expr(fn, I.ops[0], depth - 1, phis)
+    if I.op == "getelementptr":
+        base = expr(fn, I.ops[0], depth - 1, phis)
+        c = I.d.get("cpart")
+        vp = I.d.get("vpart") or []
+        if c is not None and not vp:
+            return base if c == 0 else "%s+%d" % (base, c)
+        parts = [base]
+        if c:
+            parts.append(str(c))
+        for vo, sc in vp:
+            parts.append("%s*%d" % (expr(fn, vo, depth - 1, phis), sc))
+        return "+".join(parts)
+    if I.is_call:
+        return "%s(%s)" % (I.callee or "indirect", ",".join(expr(fn, a, depth - 1, phis) for a in I.ops))
+    if I.op == "icmp":
+        return "(%s %s %s)" % (expr(fn, I.ops[0], depth - 1, phis), I.d["pred"], expr(fn, I.ops[1], depth - 1, phis))
+    if I.op == "alloca":
+        return "&" + fn.vname(vid)
+    if I.op == "select":
+        return "select(%s,%s,%s)" % tuple(expr(fn, x, depth - 1, phis) for x in I.ops)
+    return "%s(%s)" % (I.op, ",".join(expr(fn, x, depth - 1, phis) for x in I.ops))
+
+
+def enumerate_paths(fn, max_paths=5000, const_ret=None):
+    """all acyclic entry->ret paths with correlated-branch pruning.
+    Yields (literals, ret_operand_resolved, PathState, trail) where literals is
+    a list of (atom(pred,a,b) , described string, truth)."""
+    pf = PathFinder(fn, const_ret=const_ret)
+    out = []
+
+    def rec(b, st, lits, visited, trail):
+        if len(out) > max_paths:
+            raise RuntimeError("too many paths in %s" % fn.name)
+        T = fn.blocks[b][-1]
+        trail = trail + [b]
+        if T.op == "ret":
+            rv = pf.resolve(T.ops[0], st) if T.ops else None
+            out.append((lits, rv, st, trail))
+            return
+        if T.op == "unreachable":
+            return
+        choices = []
+        if T.op == "br" and len(T.d["succs"]) == 2 and T.d["succs"][0] != T.d["succs"][1]:
+            t, atom = pf.cond_truth(T.ops[0], st)
+            s1, s0 = T.d["succs"]
+            if t is True:
+                choices = [(s1, None, None)]
+            elif t is False:
+                choices = [(s0, None, None)]
+            else:
+                neg = (_NEG[atom[0]], atom[1], atom[2]) if atom else None
+                choices = [(s1, atom, True), (s0, neg, False)]
+        elif T.op == "switch":
+            c = pf.resolve(T.ops[0], st)
+            k = _okey(c)
+            for v, d in T.d["cases"]:
+                choices.append((d, ("eq", k, ("c", int(v), 64)), True))
+            choices.append((T.d["default"], None, None))
+        else:
+            choices = [(s, None, None) for s in fn.succ[b]]
+        for s, fact, truth in choices:
+            if s in visited:
+                continue
+            st2 = st.copy()
+            l2 = lits
+            if fact is not None:
+                st2.facts.append(fact)
+                l2 = lits + [(fact, T, truth)]
+            for I in fn.blocks[s]:
+                if I.op != "phi":
+                    break
+                for o, pb in I.d["inc"]:
+                    if pb == b:
+                        st2.phis[I.id] = pf.resolve(o, st)
+                        break
+            rec(s, st2, l2, visited | {s}, trail)
+
+    rec(fn.entry, PathState(), [], {fn.entry}, [])
+    return out
+
+
+def atom_str(fn, atom, st):
+    """describe an atom (pred, akey, bkey) using expr() under the path's phi choices"""
+    def k2o(k):
+        if k[0] == "v":
+            return ["v", k[1]]
+        if k[0] == "c":
+            return ["c", k[1], k[2]]
+        return json.loads(k[1])
+    return (atom[0], expr(fn, k2o(atom[1]), 6, st.phis), expr(fn, k2o(atom[2]), 6, st.phis))
